@@ -1,7 +1,7 @@
 /-
-  The "at most one connection or attempt" invariant of C12, on the control skeleton, for the histories that
-  avoid the three recorded findings (a start, a connect-retry expiry or an automatic start while a connection
-  attempt is still pending).
+  The "at most one connection or attempt" invariant of C12, on the control skeleton, for ALL histories: the peering
+  keeps the connector of the attempt in flight (`pending`, BGPPeering.connector) and gives it up before it starts
+  another one and at manual stop.
 -/
 import Yabgp.Lemmas.Heal
 
@@ -18,10 +18,10 @@ structure One (c : Core) : Prop where
 def NoConnected (c : Core) : Prop := ∀ j, j < c.conns.length → (c.conn j).1 ≠ .connected
 def NoLive (c : Core) : Prop := ∀ j, j < c.conns.length → ¬ Live c j
 
-/-- the events that start a connection attempt must not find one pending (the recorded findings of C12 / C13) -/
-def calmC (c : Core) : Ev → Prop
-  | .manualStart | .boot | .fire .retry | .fire .idleHold => ∀ j, j < c.conns.length → (c.conn j).1 ≠ .connecting
-  | _ => True
+/-- every attempt in flight is the one the peering remembers -/
+def Pend (c : Core) : Prop := ∀ j, j < c.conns.length → (c.conn j).1 = .connecting → c.pending = some j
+
+def NoConnecting (c : Core) : Prop := ∀ j, j < c.conns.length → (c.conn j).1 ≠ .connecting
 
 /-- `c'` has the same connections as `c`, except that some may have moved towards closing / closed -/
 def Shrunk (c c' : Core) : Prop :=
@@ -55,6 +55,65 @@ theorem shrunk_setPhase_closed (c : Core) (i : Nat) : Shrunk c (c.setPhase i .cl
   split at hl
   · simp at hl
   · rename_i h; rw [if_neg h]; exact ⟨hl, rfl⟩
+
+theorem shrunk_abortPending (c : Core) : Shrunk c c.abortPending := by
+  refine ⟨len_abortPending c, fun j hl => ?_⟩
+  unfold Live at hl ⊢
+  rcases conn_abortPending c j with h | ⟨h, _, _⟩
+  · rw [h] at hl ⊢; exact ⟨hl, rfl⟩
+  · rw [h] at hl; simp at hl
+
+/-- after the abort no attempt is in flight -/
+theorem noConnecting_abortPending {c : Core} (h : Pend c) : NoConnecting c.abortPending := by
+  intro j hj hc
+  rw [len_abortPending] at hj
+  rcases conn_abortPending c j with h1 | ⟨h1, _, _⟩
+  · rw [h1] at hc
+    have hp := h j hj hc
+    -- then `j` is the pending one and the abort closes it
+    unfold abortPending at h1
+    rw [hp] at h1
+    simp only [hc, ↓reduceIte] at h1
+    have := conn_setPhase (c.withPending none) j j .closed
+    rw [if_pos ⟨rfl, hj⟩] at this
+    rw [this] at h1
+    have hh : (c.conn j).1 = .closed := by rw [← h1]
+    rw [hc] at hh; cases hh
+  · rw [h1] at hc; cases hc
+
+theorem Pend.of_conns {c c' : Core} (h : Pend c) (hc : c'.conns = c.conns) (hp : c'.pending = c.pending) : Pend c' := by
+  intro j hj hcj
+  rw [hc] at hj
+  have : c'.conn j = c.conn j := by simp only [conn, hc]
+  rw [this] at hcj
+  exact hp.trans (h j hj hcj)
+
+/-- removing attempts / moving connections towards closed keeps `Pend` -/
+theorem Pend.of_shrunk {c c' : Core} (h : Pend c) (hs : Shrunk c c') (hp : c'.pending = c.pending) : Pend c' := by
+  intro j hj hcj
+  rw [hs.1] at hj
+  have := hs.2 j (Or.inl hcj)
+  exact hp.trans (h j hj (by rw [← this.2]; exact hcj))
+
+theorem pend_closeConn {c : Core} (h : Pend c) : Pend c.closeConn :=
+  h.of_shrunk (shrunk_closeConn c) (by unfold closeConn; split <;> simp [closeOn]; split <;> rfl)
+
+theorem pend_of_noConnecting {c : Core} (h : NoConnecting c) : Pend c := fun j hj hc => absurd hc (h j hj)
+
+theorem pend_abortPending {c : Core} (h : Pend c) : Pend c.abortPending := pend_of_noConnecting (noConnecting_abortPending h)
+
+theorem pend_connectTcp {c : Core} (h : Pend c) : Pend c.connectTcp := by
+  have hn := noConnecting_abortPending h
+  unfold connectTcp
+  split
+  · intro j hj hcj
+    simp only [List.length_append, List.length_cons, List.length_nil] at hj
+    simp only [conn, getD_append_one] at hcj
+    by_cases hl : j < c.abortPending.conns.length
+    · rw [if_pos hl] at hcj; exact absurd hcj (hn j hl)
+    · have : j = c.abortPending.conns.length := by omega
+      rw [this]
+  · exact pend_of_noConnecting hn
 
 /-- the uniqueness half survives shrinking -/
 theorem one_of_shrunk {c c' : Core} (h : One c) (hs : Shrunk c c') :
@@ -108,53 +167,73 @@ theorem One.of_same {c c' : Core} (h : One c) (hc : c'.conns = c.conns) (hp : c'
     exact ⟨hp.trans h1, he.trans h2, fun e => h3 (hst e)⟩
 
 /-- a new attempt when nothing is live -/
-theorem one_connectTcp {c : Core} (hn : NoLive c) : One c.connectTcp := by
+theorem one_append {a : Core} (hn : NoLive a) (p : Option Nat) :
+    One ({ a with conns := a.conns ++ [(.connecting, false)], pending := p } : Core) := by
+  have hconn : ∀ j, ({ a with conns := a.conns ++ [(.connecting, false)], pending := p } : Core).conn j =
+      if j < a.conns.length then a.conn j else if j = a.conns.length then (.connecting, false) else (.connecting, false) := by
+    intro j; simp only [conn, getD_append_one]
+  refine ⟨?_, ?_⟩
+  · intro i j hi hj li lj
+    simp only [List.length_append, List.length_cons, List.length_nil] at hi hj
+    have key : ∀ k, k < a.conns.length + 1 →
+        Live ({ a with conns := a.conns ++ [(.connecting, false)], pending := p } : Core) k → k = a.conns.length := by
+      intro k hk lk
+      by_cases hkl : k < a.conns.length
+      · unfold Live at lk; rw [hconn, if_pos hkl] at lk
+        exact absurd lk (hn k hkl)
+      · omega
+    rw [key i (by omega) li, key j (by omega) lj]
+  · intro j hj hcj
+    simp only [List.length_append, List.length_cons, List.length_nil] at hj
+    rw [hconn] at hcj
+    split at hcj
+    · rename_i hl; exact absurd (Or.inr hcj) (hn j hl)
+    · split at hcj <;> cases hcj
+
+theorem one_connectTcp {c : Core} (hn : NoLive c.abortPending) : One c.connectTcp := by
   unfold connectTcp
   split
-  · have hconn : ∀ j, ({ c with conns := c.conns ++ [(.connecting, false)] } : Core).conn j =
-        if j < c.conns.length then c.conn j else if j = c.conns.length then (.connecting, false) else (.connecting, false) := by
-      intro j; simp only [conn, getD_append_one]
-    refine ⟨?_, ?_⟩
-    · intro i j hi hj li lj
-      simp only [List.length_append, List.length_cons, List.length_nil] at hi hj
-      have key : ∀ k, k < c.conns.length + 1 → Live ({ c with conns := c.conns ++ [(.connecting, false)] } : Core) k → k = c.conns.length := by
-        intro k hk lk
-        by_cases hkl : k < c.conns.length
-        · unfold Live at lk; rw [hconn, if_pos hkl] at lk
-          exact absurd lk (hn k hkl)
-        · omega
-      rw [key i (by omega) li, key j (by omega) lj]
-    · intro j hj hcj
-      simp only [List.length_append, List.length_cons, List.length_nil] at hj
-      rw [hconn] at hcj
-      split at hcj
-      · rename_i hl; exact absurd (Or.inr hcj) (hn j hl)
-      · split at hcj <;> cases hcj
+  · exact one_append hn _
   · exact One.of_noConnected (fun i j hi hj li _ => absurd li (hn i hi)) (fun j hj hc => hn j hj (Or.inr hc))
+
+/-- after the abort nothing is live, provided nothing was connected -/
+theorem noLive_abort {c : Core} (hp : Pend c) (hnc : NoConnected c) : NoLive c.abortPending := by
+  intro j hj hl
+  rcases hl with hl | hl
+  · exact noConnecting_abortPending hp j hj hl
+  · rw [len_abortPending] at hj
+    have := (shrunk_abortPending c).2 j (Or.inr hl)
+    exact hnc j hj (by rw [← this.2]; exact hl)
 
 theorem NoLive.of_conns {c c' : Core} (h : NoLive c) (hc : c'.conns = c.conns) : NoLive c' := by
   intro j hj; unfold Live; simp only [conn, hc]; rw [hc] at hj; exact h j hj
 
-/-- in Idle nothing is connected; with no attempt pending nothing is live -/
-theorem noLive_of_idle {c : Core} (h : One c) (hs : c.st = .idle)
-    (hcalm : ∀ j, j < c.conns.length → (c.conn j).1 ≠ .connecting) : NoLive c := by
-  intro j hj hl
-  rcases hl with hl | hl
-  · exact hcalm j hj hl
-  · exact (h.tracked j hj hl).2.2 hs
+/-- in Idle nothing is connected -/
+theorem noConnected_of_idle {c : Core} (h : One c) (hs : c.st = .idle) : NoConnected c :=
+  fun j hj hl => (h.tracked j hj hl).2.2 hs
 
-theorem one_autoStart {c : Core} (h : One c) (b : Bool)
-    (hcalm : b = false → ∀ j, j < c.conns.length → (c.conn j).1 ≠ .connecting) : One (c.autoStart b) := by
+theorem one_autoStart {c : Core} (h : One c) (hp : Pend c) (b : Bool) : One (c.autoStart b) := by
   unfold autoStart
   split
   · rename_i hs
     split
     · exact h.of_same rfl rfl rfl (fun _ => hs)
-    · rename_i hb
-      split
-      · exact one_connectTcp ((noLive_of_idle h hs (hcalm (by simpa using hb))).of_conns rfl)
+    · split
+      · apply one_connectTcp
+        apply noLive_abort (c := (c.setRetry true).withSt .connect) (hp.of_conns rfl rfl)
+        exact fun j hj hl => noConnected_of_idle h hs j hj hl
       · exact h
   · exact h
+
+theorem pend_autoStart {c : Core} (hp : Pend c) (b : Bool) : Pend (c.autoStart b) := by
+  unfold autoStart
+  split
+  · split
+    · exact hp.of_conns rfl rfl
+    · split
+      · exact pend_connectTcp (hp.of_conns rfl rfl)
+      · exact hp
+  · exact hp
 
 theorem one_frameOutcome {c : Core} (h : One c) : ∀ o ∈ c.frameOutcomes, One o := by
   intro o ho
@@ -182,31 +261,70 @@ theorem one_frameOutcome {c : Core} (h : One c) : ∀ o ∈ c.frameOutcomes, One
     · exact herr
     · exact h
 
+theorem pend_errorClose {c : Core} (hp : Pend c) : Pend c.errorClose :=
+  (pend_closeConn (c := c.withTm false true) (hp.of_conns rfl rfl)).of_conns rfl rfl
+
+theorem pend_frameOutcome {c : Core} (hp : Pend c) : ∀ o ∈ c.frameOutcomes, Pend o := by
+  intro o ho
+  simp only [frameOutcomes, List.mem_cons, List.not_mem_nil, or_false] at ho
+  have herr := pend_errorClose hp
+  have hv : Pend (((c.setRetry false).closeConn).withSt .idle) :=
+    (pend_closeConn (c := c.setRetry false) (hp.of_conns rfl rfl)).of_conns rfl rfl
+  rcases ho with rfl | rfl | rfl | rfl | rfl | rfl | rfl
+  · exact hp
+  · exact herr
+  · unfold fsmOpenReceived
+    cases hs : c.st <;> simp only <;> first | exact hp | exact herr | exact hp.of_conns rfl rfl
+  · unfold fsmKeepaliveReceived
+    cases hs : c.st <;> simp only <;> first | exact hp | exact herr | exact hp.of_conns rfl rfl
+  · unfold fsmUpdateReceived
+    cases hs : c.st <;> simp only <;> first | exact hp | exact herr
+  · unfold fsmNotificationReceived
+    simp only [↓reduceIte]
+    cases hs : c.st <;> simp only <;> first | exact hp | exact herr | exact hv
+  · unfold fsmNotificationReceived
+    simp only [Bool.false_eq_true, ↓reduceIte]
+    split
+    · exact herr
+    · exact hp
+
 /-- BGPPeering.connection_closed on a state where nothing connected would be orphaned by going Idle -/
-theorem one_connectionClosed {c : Core} (h : One c) (p : Option Nat)
+theorem one_connectionClosed {c : Core} (h : One c) (hpd : Pend c) (p : Option Nat)
     (hp : ∀ q, p = some q → c.estab = some q → NoConnected c) : One (c.connectionClosed p) := by
-  have hd : One (c.dropEstab p) := by
+  have hd : One (c.dropEstab p) ∧ Pend (c.dropEstab p) := by
     unfold dropEstab
     cases p with
-    | none => exact h
+    | none => exact ⟨h, hpd⟩
     | some q =>
       simp only
       split
       · rename_i he
-        exact One.of_noConnected h.one (hp q rfl he)
-      · exact h
+        exact ⟨One.of_noConnected h.one (hp q rfl he), hpd.of_conns rfl rfl⟩
+      · exact ⟨h, hpd⟩
   unfold connectionClosed
   split
-  · exact one_autoStart hd true (fun e => by cases e)
+  · exact one_autoStart hd.1 hd.2 true
+  · exact hd.1
+
+theorem pend_connectionClosed {c : Core} (hpd : Pend c) (p : Option Nat) : Pend (c.connectionClosed p) := by
+  have hd : Pend (c.dropEstab p) := by
+    unfold dropEstab
+    cases p with
+    | none => exact hpd
+    | some q => simp only; split <;> first | exact hpd.of_conns rfl rfl | exact hpd
+  unfold connectionClosed
+  split
+  · exact pend_autoStart hd true
   · exact hd
 
-theorem one_connectionFailed {c : Core} (h : One c) (hna : c.st ≠ .active) : One c.connectionFailed := by
+theorem one_connectionFailed {c : Core} (h : One c) (hpd : Pend c) (hna : c.st ≠ .active) : One c.connectionFailed := by
   unfold connectionFailed
   cases hs : c.st <;> simp only
   · exact h
   · -- Connect
     apply one_connectionClosed
     · exact one_after_close (c := c.setRetry false) ⟨h.one, h.tracked⟩ rfl
+    · exact (pend_closeConn (c := c.setRetry false) (hpd.of_conns rfl rfl)).of_conns rfl rfl
     · intro q _ _ j hj
       have : (((c.setRetry false).closeConn).withSt .idle).conn j = (c.setRetry false).closeConn.conn j := rfl
       rw [this]
@@ -215,12 +333,24 @@ theorem one_connectionFailed {c : Core} (h : One c) (hna : c.st ≠ .active) : O
   · -- OpenSent
     apply one_connectionClosed
     · exact one_after_close (c := c) h rfl
+    · exact (pend_closeConn hpd).of_conns rfl rfl
     · intro q _ _ j hj
       have : (((c.closeConn).setRetry true).withSt .active).conn j = c.closeConn.conn j := rfl
       rw [this]
       exact noConnected_closeConn h j hj
   · exact one_errorClose h
   · exact one_errorClose h
+
+theorem pend_connectionFailed {c : Core} (hpd : Pend c) : Pend c.connectionFailed := by
+  unfold connectionFailed
+  cases hs : c.st <;> simp only
+  · exact hpd
+  · exact pend_connectionClosed (c := ((c.setRetry false).closeConn).withSt .idle)
+      ((pend_closeConn (c := c.setRetry false) (hpd.of_conns rfl rfl)).of_conns rfl rfl) _
+  · exact hpd.of_conns rfl rfl
+  · exact pend_connectionClosed (c := ((c.closeConn).setRetry true).withSt .active) ((pend_closeConn hpd).of_conns rfl rfl) _
+  · exact pend_errorClose hpd
+  · exact pend_errorClose hpd
 
 theorem one_setPhase_closed {c : Core} (h : One c) (i : Nat) : One (c.setPhase i .closed) := by
   refine ⟨one_of_shrunk h (shrunk_setPhase_closed c i), ?_⟩
@@ -230,25 +360,45 @@ theorem one_setPhase_closed {c : Core} (h : One c) (i : Nat) : One (c.setPhase i
   have := h.tracked j hj (by rw [← hs.2]; exact hcj)
   exact this
 
-theorem one_stepOutcome {c : Core} (h : One c) (hh : Heal c) (e : Ev) (hen : enabledC c e) (hcalm : calmC c e) :
-    ∀ o ∈ c.stepOutcome e, One o := by
+theorem pend_setPhase_closed {c : Core} (h : Pend c) (i : Nat) : Pend (c.setPhase i .closed) :=
+  h.of_shrunk (shrunk_setPhase_closed c i) rfl
+
+/-- **every event keeps: at most one live connection, every open connection tracked, every attempt remembered** -/
+theorem one_stepOutcome {c : Core} (h : One c) (hpd : Pend c) (hh : Heal c) (e : Ev) (hen : enabledC c e) :
+    ∀ o ∈ c.stepOutcome e, One o ∧ Pend o := by
   intro o ho
   cases e with
   | boot =>
     simp only [stepOutcome, List.mem_singleton] at ho; subst ho
-    exact one_autoStart h false (fun _ => hcalm)
+    exact ⟨one_autoStart h hpd false, pend_autoStart hpd false⟩
   | manualStart =>
     simp only [stepOutcome, List.mem_singleton] at ho; subst ho
     unfold manualStart
     cases hs : c.st <;> simp only
-    · exact one_connectTcp ((noLive_of_idle h hs hcalm).of_conns rfl)
-    all_goals exact h
+    · constructor
+      · apply one_connectTcp
+        apply noLive_abort (c := ((c.withAllow true).setRetry true).withSt .connect) (hpd.of_conns rfl rfl)
+        exact fun j hj hl => noConnected_of_idle h hs j hj hl
+      · exact pend_connectTcp (c := ((c.withAllow true).setRetry true).withSt .connect) (hpd.of_conns rfl rfl)
+    all_goals exact ⟨h, hpd⟩
   | manualStop =>
     simp only [stepOutcome, List.mem_singleton] at ho; subst ho
-    exact one_after_close (c := c.withTm false false) ⟨h.one, h.tracked⟩ rfl
+    unfold manualStop
+    have h1 : One ((((c.withTm false false).closeConn).withAllow false).withSt .idle) :=
+      one_after_close (c := c.withTm false false) ⟨h.one, h.tracked⟩ rfl
+    have p1 : Pend ((((c.withTm false false).closeConn).withAllow false).withSt .idle) :=
+      (pend_closeConn (c := c.withTm false false) (hpd.of_conns rfl rfl)).of_conns rfl rfl
+    refine ⟨?_, pend_abortPending p1⟩
+    apply One.of_noConnected (one_of_shrunk h1 (shrunk_abortPending _))
+    intro j hj hc
+    rw [len_abortPending] at hj
+    have := (shrunk_abortPending ((((c.withTm false false).closeConn).withAllow false).withSt .idle)).2 j (Or.inr hc)
+    have hcc : ((((c.withTm false false).closeConn).withAllow false).withSt .idle).conn j = (c.withTm false false).closeConn.conn j := rfl
+    have hnc := noConnected_closeConn (c := c.withTm false false) ⟨h.one, h.tracked⟩ j hj
+    apply hnc
+    rw [← hcc, ← this.2]; exact hc
   | connOk i =>
     obtain ⟨hl, hph⟩ := hen
-    -- the adopted connection was the only live one
     have hconn : ∀ (c' : Core), c'.conns = (c.setPhase i .connected).conns → ∀ j, j < c.conns.length →
         (c'.conn j).1 = .connected → j = i := by
       intro c' hc j hj hcj
@@ -272,33 +422,59 @@ theorem one_stepOutcome {c : Core} (h : One c) (hh : Heal c) (e : Ev) (hen : ena
         · rw [if_neg (fun hh => hik hh.1)] at lk
           exact (h.one i k hl hk (Or.inl hph) lk).symm
       rw [key a ha la, key b hb lb]
+    have hpend : ∀ (c' : Core), c'.conns = (c.setPhase i .connected).conns → c'.pending = c.pending → Pend c' := by
+      intro c' hc hp j hj hcj
+      rw [hc, len_setPhase] at hj
+      have e1 : c'.conn j = (c.setPhase i .connected).conn j := by simp only [conn, hc]
+      rw [e1, conn_setPhase] at hcj
+      split at hcj
+      · cases hcj
+      · exact hp.trans (hpd j hj hcj)
     simp only [stepOutcome, List.mem_cons, List.not_mem_nil, or_false] at ho
     rcases ho with rfl | rfl
     · simp only [connOk, ↓reduceIte]
-      refine ⟨hone _ rfl, ?_⟩
+      refine ⟨⟨hone _ rfl, ?_⟩, hpend _ rfl rfl⟩
       intro j hj hcj
       have hj' : j < c.conns.length := by simpa [withSt, setIdleHold, setRetry, withEstab, withProto, setPhase] using hj
       have := hconn _ rfl j hj' hcj
       subst this
       exact ⟨rfl, rfl, by simp [withSt]⟩
     · simp only [connOk, Bool.false_eq_true, ↓reduceIte]
-      refine ⟨hone _ rfl, ?_⟩
+      refine ⟨⟨hone _ rfl, ?_⟩, hpend _ rfl rfl⟩
       intro j hj hcj
       have hj' : j < c.conns.length := by simpa [withSt, setIdleHold, setRetry, withEstab, withProto, setPhase] using hj
       have := hconn _ rfl j hj' hcj
       subst this
       exact ⟨rfl, rfl, by simp [withSt, setIdleHold, setRetry, withEstab]⟩
   | connFail i =>
-    obtain ⟨hl, hph⟩ := hen
     simp only [stepOutcome, List.mem_singleton] at ho; subst ho
     unfold connFail
-    exact one_connectionFailed (one_setPhase_closed h i) hh.noActive
+    split
+    · have h1 : One ((c.withPending none).setPhase i .closed) := one_setPhase_closed (c := c.withPending none) ⟨h.one, h.tracked⟩ i
+      have p1 : Pend ((c.withPending none).setPhase i .closed) := by
+        -- the failed attempt was the remembered one, so no attempt is left
+        rename_i hpi
+        apply pend_of_noConnecting
+        intro j hj hcj
+        rw [len_setPhase] at hj
+        rw [conn_setPhase] at hcj
+        split at hcj
+        · cases hcj
+        · rename_i hne
+          have hj' : j < c.conns.length := hj
+          have := hpd j hj' hcj
+          rw [hpi] at this
+          have hij : i = j := by simpa using this
+          exact hne ⟨hij, by rw [hij]; exact hj'⟩
+      exact ⟨one_connectionFailed h1 p1 hh.noActive, pend_connectionFailed p1⟩
+    · exact ⟨one_setPhase_closed h i, pend_setPhase_closed hpd i⟩
   | lost i =>
     simp only [stepOutcome, List.mem_singleton] at ho; subst ho
     unfold connLost
     split
     · rename_i hd
-      apply one_connectionClosed (one_setPhase_closed h i)
+      refine ⟨?_, pend_connectionClosed (pend_setPhase_closed hpd i) _⟩
+      apply one_connectionClosed (one_setPhase_closed h i) (pend_setPhase_closed hpd i)
       intro q hq he j hj hcj
       cases hq
       rw [len_setPhase] at hj
@@ -310,55 +486,52 @@ theorem one_stepOutcome {c : Core} (h : One c) (hh : Heal c) (e : Ev) (hen : ena
       subst hji
       rw [conn_setPhase, if_pos ⟨rfl, hj⟩] at hcj
       cases hcj
-    · rename_i hd
-      exact one_connectionFailed (one_setPhase_closed h i) hh.noActive
+    · exact ⟨one_connectionFailed (one_setPhase_closed h i) (pend_setPhase_closed hpd i) hh.noActive,
+        pend_connectionFailed (pend_setPhase_closed hpd i)⟩
   | advance dt =>
-    simp only [stepOutcome, List.mem_singleton] at ho; subst ho; exact h
+    simp only [stepOutcome, List.mem_singleton] at ho; subst ho; exact ⟨h, hpd⟩
   | chunk i d => simp [stepOutcome] at ho
   | fire t =>
     cases t with
     | retry =>
       simp only [stepOutcome, List.mem_singleton] at ho; subst ho
       unfold fireRetry
-      have hcl : One ((c.setRetry false).closeConn) := one_after_close (c := c.setRetry false) ⟨h.one, h.tracked⟩ rfl
-      have hnl : NoLive (((c.setRetry false).closeConn).setRetry true) := by
-        intro j hj hlv
-        have hj' : j < c.conns.length := by
-          have : (((c.setRetry false).closeConn).setRetry true).conns.length = c.conns.length := len_closeConn (c.setRetry false)
-          rw [this] at hj; exact hj
-        have hlv' : Live ((c.setRetry false).closeConn) j := hlv
-        rcases hlv' with hc | hc
-        · have hs := (shrunk_closeConn (c.setRetry false)).2 j (Or.inl hc)
-          have e : (c.setRetry false).conn j = c.conn j := rfl
-          exact hcalm j hj' (by rw [← e, ← hs.2]; exact hc)
-        · exact noConnected_closeConn (c := c.setRetry false) ⟨h.one, h.tracked⟩ j (by rw [len_closeConn]; exact hj') hc
+      have p1 : Pend (((c.setRetry false).closeConn).setRetry true) :=
+        (pend_closeConn (c := c.setRetry false) (hpd.of_conns rfl rfl)).of_conns rfl rfl
+      have hnl : NoLive (((c.setRetry false).closeConn).setRetry true).abortPending := by
+        apply noLive_abort p1
+        intro j hj hcj
+        exact noConnected_closeConn (c := c.setRetry false) ⟨h.one, h.tracked⟩ j hj hcj
       cases hs : c.st <;> simp only
-      · exact h.of_same rfl rfl rfl (fun _ => hs)
-      · exact one_connectTcp hnl
-      · exact one_connectTcp hnl
-      all_goals exact one_errorClose (c := c.setRetry false) ⟨h.one, h.tracked⟩
+      · exact ⟨h.of_same rfl rfl rfl (fun _ => hs), hpd.of_conns rfl rfl⟩
+      · exact ⟨one_connectTcp hnl, pend_connectTcp p1⟩
+      · exact ⟨one_connectTcp hnl, pend_connectTcp p1⟩
+      all_goals exact ⟨one_errorClose (c := c.setRetry false) ⟨h.one, h.tracked⟩, pend_errorClose (c := c.setRetry false) (hpd.of_conns rfl rfl)⟩
     | hold =>
       simp only [stepOutcome, List.mem_singleton] at ho; subst ho
       unfold fireHold
       have h2 : One (((c.setRetry false).errorClose).withSt .idle) :=
         one_after_close (c := (c.setRetry false).withTm false true) ⟨h.one, h.tracked⟩ rfl
+      have p2 : Pend (((c.setRetry false).errorClose).withSt .idle) :=
+        (pend_errorClose (c := c.setRetry false) (hpd.of_conns rfl rfl)).of_conns rfl rfl
       cases hs : c.st <;> simp only
-      · exact h
-      · exact one_errorClose h
-      · exact one_errorClose h
-      all_goals exact h2
+      · exact ⟨h, hpd⟩
+      · exact ⟨one_errorClose h, pend_errorClose hpd⟩
+      · exact ⟨one_errorClose h, pend_errorClose hpd⟩
+      all_goals exact ⟨h2, p2⟩
     | keepalive =>
       simp only [stepOutcome, List.mem_singleton] at ho; subst ho
       unfold fireKeepalive
       cases hs : c.st <;> simp only
-      all_goals first | exact h | exact one_errorClose h
+      all_goals first | exact ⟨h, hpd⟩ | exact ⟨one_errorClose h, pend_errorClose hpd⟩
     | idleHold =>
       simp only [stepOutcome, List.mem_singleton] at ho; subst ho
       unfold fireIdleHold
       split
-      · exact one_autoStart (c := c.setIdleHold false) ⟨h.one, h.tracked⟩ false (fun _ => hcalm)
+      · exact ⟨one_autoStart (c := c.setIdleHold false) ⟨h.one, h.tracked⟩ (hpd.of_conns rfl rfl) false,
+          pend_autoStart (c := c.setIdleHold false) (hpd.of_conns rfl rfl) false⟩
       · rename_i hs
-        exact h.of_same rfl rfl rfl (fun e => absurd e hs)
+        exact ⟨h.of_same rfl rfl rfl (fun e => absurd e hs), hpd.of_conns rfl rfl⟩
 
 end Core
 end Yabgp
